@@ -186,9 +186,37 @@ def some_host(rng):
     return rng.choice(['example.com', 'EXAMPLE.com', 'a.b.c', 'xn--zca.x', 'a_b', 'x' * 63 + '.y', '1.2.3.4.example', 'a.0x', 'a.1.', '1.2.3.a'])
 
 
+def v6_shapes():
+    """every position and width of "::" (a pieces before, b after), with and without an embedded IPv4 tail, and the
+    uncompressed forms: the structure that the IPv6 prefilters (ipv6_structure_plausible) and the parser count"""
+    out = []
+    for tail in ('', '1.2.3.4'):
+        total = 6 if tail else 8
+        for a in range(0, total + 1):
+            for b in range(0, total + 1 - a):
+                if a + b > total:
+                    continue
+                left = ':'.join(str(i + 1) for i in range(a))
+                right = ':'.join(str(a + i + 1) for i in range(b))
+                s = left + '::' + right
+                if tail:
+                    s += (':' if right else '') + tail
+                out.append('[' + s + ']')
+        full = ':'.join(str(i + 1) for i in range(total))
+        out.append('[' + full + (':' + tail if tail else '') + ']')
+    return out
+
+
 def host_workload(ops, rng, n):
     """C10: spellings through parse (every scheme class), through set_host / set_hostname / set_href,
     inherited from a base, replaced IP <-> domain; host_type and has_valid_domain on every event."""
+    for k, h in enumerate(v6_shapes()):
+        if k % 6 == 0:
+            ops.reset()
+        ops.parse(1, 0, 'http://%s/' % h)
+        if k % 4 == 0:
+            ops.parse(2, 0, 'ws://example.com/')
+            ops.set(2, 'hostname', h)
     for i in range(n):
         ops.reset()
         h = some_host(rng)
